@@ -291,11 +291,13 @@ impl<'r> Gen<'r> {
             "0o777", "0b1010_1010", "1u8", "300u8", "1i128", "1_000_000", "7usize", "00000000000000000000000000000000000000001", "0x0",
         ];
         const FLOATS: [&str; 10] = ["1.5", "0.0", "1e10", "1e400", "3.5e38f32", "1f64", "1e-400", "123456789012345678901234567890.0", "1.0e0", "2.5f32"];
-        const STRS: [&str; 64] = [
+        const STRS: [&str; 72] = [
             "", "0", "-1", "-128", "-129", "255", "256", "1e400", "NaN", "inf", "-inf", "1.5", "abc", "a::b", "::a", "Vec<u8>", "pub(crate)", "pub", "where T: Clone",
             "T: Clone, U: Copy", "[1, 2]", "[\"a\", \"b\"]", "[1, x]", "1..2", "fn()", "|x| x", "true", "false", "x", "xy", " ", "a b", "1 2", "snake_case", "PascalCase",
             "r#type", "self", "a,b,c", "a, b,", "é", "0x1ff", "0b1_0000_0000", "1_000", "300u8", "0x10", "-0x81", "+5", "[u8; 4]", "fn(u8) -> u8", "impl Clone", "_", "m!()", "!", "(u8)",
             "*const u8", "&'a str", "[u8]", "dyn Clone + Send", "(u8, u16)", "T: Clone", "[0x2]", "[0.5, 0x2]", "b'a'", "a + b; c",
+            // contents that do not even tokenize
+            "Vec<(u8, u16>", "foo(1, 2", "[1, 2", "T: Fn(u8", "std\\\\mem", "'", "0x", "a )",
         ];
         const EXPRS: [&str; 64] = [
             "[1, 2, 3]", "[\"a\", \"b\"]", "[1, \"a\"]", "[]", "[300, 1]", "[-1]", "[1u8, 2u64]", "a::b", "::a", "foo(1)", "1..2", "..", "(1)", "{ 1 }", "|x| x", "&x", "x as u8", "1 + 2",
@@ -682,6 +684,8 @@ fn all_receiver_names(mode: &str) -> Vec<&'static str> {
         v
     } else {
         let mut v = META_RECEIVERS.to_vec();
+        // library conversions: not predicted, judged for what C03 says of any error value
+        v.extend(["L1", "L2", "L3", "L4", "L5"]);
         v.extend(["RHS", "RBI", "RHP", "RHN", "RBH"]);
         v.extend(crate::gen_schema::META_NAMES);
         v
